@@ -1,6 +1,7 @@
 //! vx_sets: checks over lance-core / lance-table set, sequence, naming, flag and schema algebra code.
 mod c21;
 mod c21_expr;
+mod c37;
 
 use vcore::{machinery_error, Ctx};
 
@@ -9,6 +10,7 @@ fn main() {
     vcore::quiet_panics();
     let out = match ctx.id.as_str() {
         "C21" => c21::run(&ctx),
+        "C37" => c37::run(&ctx),
         other => machinery_error(&format!("vx_sets does not implement {other}")),
     };
     vcore::finish(&ctx, out);
